@@ -16,4 +16,12 @@ MUTATIONS = [
     ("C02", "adv-giveup-drops-backlog-silently", [("@patch", A + "C02_miss2.diff", 3)]),
     ("C02", "adv-forged-empty-ack-by-message-id-alone", [("@patch", A + "C02_miss3.diff", 3)]),
 ]
+MUTATIONS += [
+    ("C09", "adv-diagnostic-payload-dropped", [("@patch", A + "C09_miss1.diff", 3)]),
+    ("C09", "adv-unassigned-request-code-500", [("@patch", A + "C09_miss2.diff", 3)]),
+    ("C09", "adv-slow-handler-cut-at-exchange-lifetime", [("@patch", A + "C09_miss3.diff", 3)]),
+    # (C09_miss4.diff removed the `is None` guard that fix 3ed899d has since turned into an isinstance test)
+    ("C09", "adv-error-renderer-result-unchecked", [("aiocoap/pipe.py", "                if not isinstance(msg, Message):\n", "                if False:\n")]),
+    ("C09", "adv-response-wrapping-error-relayed", [("@patch", A + "C09_miss5.diff", 3)]),
+]
 CONTROLS = []
